@@ -134,10 +134,7 @@ func (w *World) SeedStandardWith(atomPrice math.LegacyDec, usdc string) *Std {
 		// module params
 		_ = app.StakingKeeper // staking params come from genesis (bond denom uelys)
 		app.ParameterKeeper.SetParams(ctx, ptypes.DefaultGenesis().Params)
-		mcp := mctypes.DefaultGenesis().Params
-		// third parties may fund incentives in ATOM and in the base currency (governance's MsgAddExternalRewardDenom)
-		mcp.SupportedRewardDenoms = []*mctypes.SupportedRewardDenom{{Denom: "uatom", MinAmount: math.NewInt(1)}, {Denom: usdc, MinAmount: math.NewInt(1)}}
-		app.MasterchefKeeper.SetParams(ctx, mcp)
+		app.MasterchefKeeper.SetParams(ctx, mctypes.DefaultGenesis().Params)
 		w.Names[mctypes.DefaultGenesis().Params.ProtocolRevenueAddress] = "protocolRevenue"
 		app.StablestakeKeeper.SetParams(ctx, sstypes.DefaultGenesis().Params)
 		lpp := lptypes.DefaultGenesis().Params
